@@ -64,7 +64,8 @@ type Noti struct {
 	Atomic bool    `json:"atomic,omitempty"`
 }
 
-// Resp is a SubscribeResponse. K: update sync error unset.
+// Resp is a SubscribeResponse. K: update sync error unset; fail: no response,
+// the stream's Recv returns an error at this position.
 type Resp struct {
 	K string `json:"k"`
 	N *Noti  `json:"n,omitempty"`
@@ -474,6 +475,8 @@ func gResp(nm *vh.Names, r *Resp) string {
 		return "RError"
 	case "unset":
 		return "RUnset"
+	case "fail":
+		return "RFail"
 	}
 	n := r.N
 	us := make([]string, len(n.Upd))
